@@ -1078,6 +1078,15 @@ func c03Fixed() []*c03job {
 			{name: "B", display: "disp", expr: lit("x")},
 			{name: "C", expr: seq(&anode{kind: "RuleRef", name: "B"}, &anode{kind: "RuleRef", name: "B"})}}},
 		{text: "A = \"\" [] [^] ``i\n", structOnly: true, nodes: 6, kinds: 3, rules: []*arule{{name: "A", expr: seq(lit(""), cls("", nil, false), cls("", nil, true), &anode{kind: "Lit", val: "", ic: true})}}},
+		// the i suffix directly followed by an identifier, a prefix operator or another literal: the
+		// suffix belongs to the matcher before it, the identifier is the next sequence item
+		{text: "A = \"x\"iTail [a-f]iEnd 'y'i!Tail `z`i&End[q]i\"r\"i\nTail = 't'\nEnd = 'e'i;\n", structOnly: true, nodes: 14, kinds: 6, rules: []*arule{
+			{name: "A", expr: seq(&anode{kind: "Lit", val: "x", ic: true}, &anode{kind: "RuleRef", name: "Tail"},
+				&anode{kind: "Class", cls: &aclass{ranges: [][2]rune{{'a', 'f'}}, ic: true}}, &anode{kind: "RuleRef", name: "End"},
+				&anode{kind: "Lit", val: "y", ic: true}, &anode{kind: "Not", kids: []*anode{{kind: "RuleRef", name: "Tail"}}},
+				&anode{kind: "Lit", val: "z", ic: true}, &anode{kind: "And", kids: []*anode{{kind: "RuleRef", name: "End"}}},
+				&anode{kind: "Class", cls: &aclass{chars: []rune("q"), ic: true}}, &anode{kind: "Lit", val: "r", ic: true})},
+			{name: "Tail", expr: lit("t")}, {name: "End", expr: &anode{kind: "Lit", val: "e", ic: true}}}},
 		{text: "A = 'a' ; B = 'b';C='c'", structOnly: true, nodes: 6, kinds: 3, rules: []*arule{{name: "A", expr: lit("a")}, {name: "B", expr: lit("b")}, {name: "C", expr: lit("c")}}},
 		{text: "A = a:(b:'c') !(&(!'d')) ('e'?)+ / ( 'f' / 'g' ) 'h' {x} / 'i' //{l} 'j' / 'k' //{m,n} 'o'\n", structOnly: true, nodes: 20, kinds: 9, rules: []*arule{{name: "A", expr: &anode{kind: "Recovery", labels: []string{"m", "n"}, kids: []*anode{
 			{kind: "Recovery", labels: []string{"l"}, kids: []*anode{
